@@ -257,6 +257,17 @@ pub fn finish(ctx: &Ctx, meta: CheckMeta, total: Acc, started: Instant, verif_di
     let mut replay_n = 0;
     let mut replay_per_sig: BTreeMap<String, u32> = BTreeMap::new();
     std::fs::create_dir_all(format!("{verif_dir}/replays")).ok();
+    // witnesses of earlier runs of this property and tier are stale once a new run starts writing
+    if ctx.replay.is_none() {
+        if let Ok(rd) = std::fs::read_dir(format!("{verif_dir}/replays")) {
+            let prefix = format!("{}-{}-", ctx.prop, ctx.tier.name());
+            for e in rd.flatten() {
+                if e.file_name().to_string_lossy().starts_with(&prefix) {
+                    let _ = std::fs::remove_file(e.path());
+                }
+            }
+        }
+    }
     // violations tagged for another property are ignored here (shared workloads)
     let mut other_prop_viol: BTreeMap<String, u64> = BTreeMap::new();
     for (k, c) in &total.viol_counts {
